@@ -338,14 +338,24 @@ func (c *Ctx) OverlayRules(prop string) {
 		fld string
 	}{{fone, acctOverlay}, {fkey, keyOverlay}} {
 		found := false
-		hq := Held(fq.fn, muKey)
-		for _, b := range fq.fn.Blocks {
-			for _, ins := range b.Instrs {
-				if lk, ok := ins.(*ssa.Lookup); ok {
-					if f, ok := isFieldMap(lk.X); ok && f == fq.fld {
-						found = true
-						if hq.Before[ins]&1 != 0 {
-							c.R.Fail(rule3, Fn(fq.fn)+":lock", c.Pos(ins), "the overlay is read without the lock", "overlay read under RLock", nil)
+		// the lookup itself, or a same-receiver helper it calls (the lock is then judged inside that helper)
+		scope := []*ssa.Function{fq.fn}
+		for _, ci := range Calls(fq.fn, func(ci ssa.CallInstruction) bool {
+			g := ci.Common().StaticCallee()
+			return g != nil && g.Blocks != nil && !ci.Common().IsInvoke() && g.Signature.Recv() != nil && namedOf(g.Signature.Recv().Type()) == impl && g != fone && g != fkey && g != fa && g != add
+		}) {
+			scope = append(scope, ci.Common().StaticCallee())
+		}
+		for _, g := range scope {
+			hq := Held(g, muKey)
+			for _, b := range g.Blocks {
+				for _, ins := range b.Instrs {
+					if lk, ok := ins.(*ssa.Lookup); ok {
+						if f, ok := isFieldMap(lk.X); ok && f == fq.fld {
+							found = true
+							if hq.Before[ins]&1 != 0 {
+								c.R.Fail(rule3, Fn(g)+":lock", c.Pos(ins), "the overlay is read without the lock", "overlay read under RLock", nil)
+							}
 						}
 					}
 				}
